@@ -737,7 +737,7 @@ func doCheck(cfg tierCfg) int {
 		go func(i int) {
 			defer bwg.Done()
 			from := int64(0)
-			for restarts := 0; restarts < 30; restarts++ {
+			for restarts := 0; restarts < 6; restarts++ {
 				left := time.Until(burstDeadline).Seconds()
 				if left < 1 {
 					return
@@ -858,7 +858,9 @@ func doCheck(cfg tierCfg) int {
 				json.Unmarshal(b2, &m)
 				m["report"] = rr.text
 				m["identity"] = rr.identity
-				m["gomaxprocs"] = rr.gomaxprocs
+				if g, err := strconv.Atoi(rr.gomaxprocs); err == nil {
+					m["gomaxprocs"] = g
+				}
 				m["expect"] = failure{Oracle: "O5", Key: rr.identity, Detail: rr.kind}
 				raw, _ = json.MarshalIndent(m, "", " ")
 			}
@@ -962,8 +964,12 @@ func doCheck(cfg tierCfg) int {
 		return 1
 	}
 	if len(harnessTrouble) > 0 {
+		shown := map[string]bool{}
 		for _, h := range harnessTrouble {
-			fmt.Printf("HARNESS-TROUBLE: %s\n", h)
+			if key := firstLines(h, 2); !shown[key] && len(shown) < 10 {
+				shown[key] = true
+				fmt.Printf("HARNESS-TROUBLE: %s\n", h)
+			}
 		}
 		return 2
 	}
@@ -1096,7 +1102,7 @@ func lastBurst(stderr string) int64 {
 	return v
 }
 
-var frameRe = regexp.MustCompile(`(?m)^\s+(github\.com/cloudspannerecosystem/memefish/[^\s:]+\.go):(\d+)`)
+var frameRe = regexp.MustCompile(`(?m)^\s+github\.com/cloudspannerecosystem/memefish(?:@[^/\s]+)?/([^\s:]+\.go):(\d+)`)
 var funcRe = regexp.MustCompile(`(?m)^\s*(github\.com/cloudspannerecosystem/memefish[^\s(]*)\(`)
 
 func classifyCrash(p *proc, last int64, w, of int) raceReport {
@@ -1128,10 +1134,10 @@ func classifyCrash(p *proc, last int64, w, of int) raceReport {
 	var frames []string
 	seenF := map[string]bool{}
 	for _, m := range frameRe.FindAllStringSubmatch(rr.text, -1) {
-		if strings.Contains(m[1], "/verifsimrt/") || strings.Contains(m[1], "/verifsync/") {
+		if strings.HasPrefix(m[1], "verifsimrt/") || strings.HasPrefix(m[1], "verifsync/") {
 			continue
 		}
-		f := strings.TrimPrefix(m[1], "github.com/cloudspannerecosystem/memefish/") + ":" + m[2]
+		f := m[1] + ":" + m[2]
 		if !seenF[f] {
 			seenF[f] = true
 			frames = append(frames, f)
